@@ -468,8 +468,12 @@ def check_setup(ctx, repo):
            node=rets[0] if rets else func, label="return-order")
 
     # R10.5 disjointness guard dominating each destructive call
+    unresolved = []
+
     def disjoint_fact(e, truth):
-        # a comparison mentioning an IN-role and an OUT/TEMP-role value
+        # a comparison mentioning an IN-role and an OUT/TEMP-role value; the
+        # compared paths must be canonical (resolve()/realpath/samefile),
+        # otherwise symlinks and '..' spellings of the input slip through
         for n in ast.walk(e):
             if isinstance(n, (ast.Compare, ast.Call)):
                 rs = set()
@@ -477,6 +481,22 @@ def check_setup(ctx, repo):
                     if isinstance(nm, ast.Name):
                         rs |= roles.of(nm)
                 if "IN" in rs and (rs & {"OUT", "TEMP"}):
+                    if isinstance(n, ast.Compare):
+                        sides = [n.left] + list(n.comparators)
+                        canon = all(
+                            isinstance(sd, ast.Call) and (
+                                last_attr(sd) in ("resolve", "realpath",
+                                                  "samefile"))
+                            or not (names_in(sd) and any(
+                                roles.of(x) for x in ast.walk(sd)
+                                if isinstance(x, ast.Name)))
+                            for sd in sides)
+                        if not canon:
+                            unresolved.append(n)
+                            continue
+                    elif last_attr(n) not in ("samefile", "resolve",
+                                              "realpath"):
+                        continue
                     return True
         return False
 
@@ -523,6 +543,14 @@ def check_setup(ctx, repo):
             if any(disjoint_fact(t, True) for t in tests):
                 guarded = True
         # must be reachable before: the raising test has to dominate
+        if not guarded and unresolved:
+            ctx.ob("R10.5", False,
+                   f"the alias test `{short(unresolved[0], 60)}` compares "
+                   "paths that are not canonicalised (resolve()/samefile): an "
+                   "output that reaches the input through a symlink or '..' "
+                   "is not recognised and the input is removed",
+                   node=unresolved[0], label=f"alias-guard {role}")
+            continue
         ctx.ob("R10.5", guarded,
                f"removal of stale {role.lower()} paths is guarded by a test "
                "that they do not alias an input" if guarded else
@@ -594,6 +622,13 @@ MUTANTS = [
     ("setup: return order", "dclab/cli/common.py",
      ("return paths_in, paths_out, paths_temp",
       "return paths_in, paths_temp, paths_out"), "R10."),
+    ("alias guard on non-canonical paths (seeded C10_1)",
+     "dclab/cli/common.py",
+     ("if pp.resolve() == pi.resolve():",
+      "if pp.absolute() == pi.absolute():"), "R10.5"),
+    ("alias guard removed (F10 returns)", "dclab/cli/common.py",
+     ("            if pp.resolve() == pi.resolve():\n",
+      "            if False:\n"), "R10.5"),
     ("new helper writes output", "dclab/cli/task_repack.py",
      ("def repack_parser():",
       "def _finalize(p):\n    with h5py.File(p, 'a') as h:\n"
@@ -601,6 +636,9 @@ MUTANTS = [
 ]
 
 TWINS = [
+    ("setup: alias guard via samefile", "dclab/cli/common.py",
+     ("if pp.resolve() == pi.resolve():",
+      "if pp.exists() and pi.exists() and pp.samefile(pi):")),
     ("compress: local rename of temp var", "dclab/cli/task_compress.py",
      lambda s: s.replace("path_temp", "p_tmp")),
     ("repack: rename via os.replace", "dclab/cli/task_repack.py",
